@@ -58,16 +58,30 @@ func genC19(ctx *Ctx, i int) *Input {
 		}
 		in.Spec = s
 	case "too-many-states":
-		s := base.Clone()
-		// one rule with 2001 symbols: 2002 LR(0) states
-		long := wl.Rule{L: s.Start, Prec: -1}
-		for k := 0; k < 2001; k++ {
-			long.R = append(long.R, wl.Sym{I: 0})
+		// a dedicated small base: on top of an ambiguous random base the item sets of the chain states grow with the
+		// depth and yaccgo's closure computation becomes cubic (minutes) - slow, not a failure kind
+		s := wl.MustDSL("top: ID top2 | ID ; top2: ID ID")
+		s.Fields = []wl.Field{{Name: "fa", Type: "int"}}
+		// a chain of 2100 tiny rules  chainK : t chainK+1  gives more than 2000 LR(0) states with two-item states
+		// (cheap to build and to list, unlike one rule with 2000 symbols)
+		first := len(s.NTs)
+		const n = 2100
+		for k := 0; k < n; k++ {
+			s.NTs = append(s.NTs, wl.NT{Name: fmt.Sprintf("chain%d", k)})
 		}
+		var chain []wl.Rule
+		for k := 0; k < n; k++ {
+			r := wl.Rule{L: first + k, R: []wl.Sym{{I: 0}}, Prec: -1}
+			if k+1 < n {
+				r.R = append(r.R, wl.Sym{NT: true, I: first + k + 1})
+			}
+			chain = append(chain, r)
+		}
+		entry := wl.Rule{L: s.Start, R: []wl.Sym{{I: 0}, {NT: true, I: first}}, Prec: -1}
 		if late {
-			s.Rules = append(s.Rules, long)
+			s.Rules = append(append(s.Rules, entry), chain...)
 		} else {
-			s.Rules = append([]wl.Rule{long}, s.Rules...)
+			s.Rules = append(append([]wl.Rule{entry}, chain...), s.Rules...)
 		}
 		in.Spec = s
 		in.LayoutSeed = 0
